@@ -159,7 +159,8 @@ def name_of(i):
 def run_cluster(chooser, cfg, fault=None, trace=None):
     """cfg = (N, interval_s, suspicion_s, phi).  fault = None | (victim_idx, crash_ns, restart_ns|None).
     Returns a dict with the per-pair view timeline and the oracle's findings."""
-    N, I, S, PHI, rounds = cfg
+    N, I, S, PHI, rounds = cfg[:5]
+    fractions = tuple(cfg[5]) if len(cfg) > 5 else LAT_FRACTIONS
     I_ns = int(round(I * SEC))
     holder = Holder()
     holder.chooser = chooser
@@ -171,7 +172,7 @@ def run_cluster(chooser, cfg, fault=None, trace=None):
             for b in nodes:
                 if a is not b:
                     a.add_member(b)
-        menu = [f * I for f in LAT_FRACTIONS]
+        menu = [f * I for f in fractions]
         for a in nodes:
             for b in nodes:
                 if a is not b:
@@ -312,7 +313,7 @@ def bound_rounds(N, I, S):
 
 def check_detection(out, cfg, fault):
     """clause 2: every other live member stops reporting the victim ALIVE within BOUND rounds."""
-    N, I, S, PHI, rounds = cfg
+    N, I, S, PHI, rounds = cfg[:5]
     I_ns = int(round(I * SEC))
     v = name_of(fault[0])
     deadline = fault[1] + bound_rounds(N, I, S) * I_ns
@@ -733,7 +734,8 @@ def replay(data):
             print(f"  !! {v[0]}: {v[1]}")
         return 1 if v else 0
     cfg = tuple(rep["cfg"])
-    cfg = (int(cfg[0]), float(cfg[1]), float(cfg[2]), float(cfg[3]), int(cfg[4]))
+    cfg = (int(cfg[0]), float(cfg[1]), float(cfg[2]), float(cfg[3]), int(cfg[4])) + (
+        (tuple(float(x) for x in cfg[5]),) if len(cfg) > 5 else ())
     fault = tuple(rep["fault"]) if rep.get("fault") else None
     trace = []
     ch = Chooser(prefix=rep["choices"])
